@@ -21,7 +21,7 @@ VARIABLES tid, l, b, pos
 \* JsonDeserialize on every reference, and a state variable holding it is copied into every state
 tr == TLCGet(1)[tid]
 
-tvars == <<pc, want, hold, nm, fn, ctr, ns, wr, nwr, lru, hits, misses, calls, tid, l, b, pos>>
+tvars == <<pc, want, hold, nm, fn, fc, cs, shared, ctr, ns, wr, nwr, lru, hits, misses, calls, tid, l, b, pos>>
 
 TInit == \E f \in {JsonDeserialize(IOEnv.TRACE_FILE)} :
          /\ TLCSet(1, f)
@@ -41,24 +41,29 @@ Silent ==
     /\ b < Budget
     /\ LET t == tr.evs[l].t
        IN \/ TLookup(t)
-          \/ (ReadCtr(t) \/ IncCtr(t) \/ Define(t) \/ Insert(t) \/ Get(t) \/ Call(t)) /\ UNCHANGED pos
+          \/ (ReadCtr(t) \/ IncCtr(t) \/ Publish(t) \/ Define(t) \/ Insert(t) \/ Get(t) \/ Call(t)) /\ UNCHANGED pos
           \/ (\E w \in Unreferenced : Finalise(w)) /\ UNCHANGED pos
     /\ b' = b + 1
     /\ UNCHANGED <<tid, l>>
 
 LoggedNs(ev) == {<<ev.ns[i][1], ev.ns[i][2]>> : i \in 1..Len(ev.ns)}
 ModelNs      == {<<n, ns[n]>> : n \in DOMAIN ns}
+\* the literals a generated function is bound to, when the harness could see them (third component; 0: not seen)
+ConstsOk(ev) == \A i \in 1..Len(ev.ns) :
+                   Len(ev.ns[i]) < 3 \/ ev.ns[i][3] = 0 \/ (ev.ns[i][1] \in DOMAIN cs /\ cs[ev.ns[i][1]] = ev.ns[i][3])
 
 Matches(ev) ==
     IF ev.k = "ret"
     THEN /\ pc[ev.t] = "idle"
          /\ pos[ev.t] = ev.n + 1          \* the n-th call of that thread has completed
          /\ fn[ev.t] = ev.f               \* ... with the code of this filter
+         /\ fc[ev.t] = ev.f               \* ... and its literals (the rows returned are those of filter ev.f)
     ELSE IF ev.k = "sum"                  \* sequential histories: one summary event per completed call
-    THEN /\ pc[ev.t] = "idle" /\ pos[ev.t] = ev.n + 1 /\ fn[ev.t] = ev.f
+    THEN /\ pc[ev.t] = "idle" /\ pos[ev.t] = ev.n + 1 /\ fn[ev.t] = ev.f /\ fc[ev.t] = ev.f
          /\ Cardinality(DOMAIN ns) = ev.nsn
          /\ Len(lru) = ev.size /\ hits = ev.hits /\ misses = ev.misses
     ELSE /\ ModelNs = LoggedNs(ev)
+         /\ ConstsOk(ev)
          /\ Len(lru) = ev.size
          /\ hits = ev.hits
          /\ misses = ev.misses
@@ -69,11 +74,11 @@ Consume ==
     /\ l' = l + 1
     /\ b' = 0
     /\ (l = Len(tr.evs) => PrintT(<<"ACCEPT", tid>>))
-    /\ UNCHANGED <<pc, want, hold, nm, fn, ctr, ns, wr, nwr, lru, hits, misses, calls, tid, pos>>
+    /\ UNCHANGED <<pc, want, hold, nm, fn, fc, cs, shared, ctr, ns, wr, nwr, lru, hits, misses, calls, tid, pos>>
 
 TNext == Silent \/ Consume
 TSpec == TInit /\ [][TNext]_tvars
-TView == <<pc, want, hold, nm, fn, ctr, ns, wr, nwr, lru, hits, misses, calls, tid, l, b, pos>>
+TView == <<pc, want, hold, nm, fn, fc, cs, shared, ctr, ns, wr, nwr, lru, hits, misses, calls, tid, l, b, pos>>
 
 \* progress report for diagnosing a rejected trace (Trace_FilterCache_diag.cfg, one trace at a time)
 Progress == PrintT(<<"AT", tid, l>>)
